@@ -733,6 +733,51 @@ example :
     (by decide +kernel) (by decide +kernel) (by decide +kernel) (by decide +kernel) (by decide +kernel)
     (by decide +kernel) (by decide +kernel) demo_b0 demo_b1
 
+/-- **the hypotheses of `segment_length_err_float32` hold on the demo segment** (`Δ = (7, 24)`, `E = 625`), so the booked
+length `ℓ` satisfies `625 (1 − 3·2⁻²²) ≤ ℓ² ≤ 625 (1 + 3·2⁻²²)` (it is `25`). -/
+example : 625 * (1 - 3 * (2 : ℚ) ^ (-22 : Int)) ≤ toRat32 (Pos.length Float (demoPE - demoPP)) ^ 2 ∧
+    toRat32 (Pos.length Float (demoPE - demoPP)) ^ 2 ≤ 625 * (1 + 3 * (2 : ℚ) ^ (-22 : Int)) := by
+  have a1 : toRat32 demoPP.x = 100 := demo_100
+  have a2 : toRat32 demoPP.y = 200 := demo_200
+  have a3 : toRat32 demoPE.x = 107 := demo_107
+  have a4 : toRat32 demoPE.y = 224 := demo_224
+  have h := segment_length_err_float32 demoPP demoPE (by decide +kernel) (by decide +kernel) (by decide +kernel)
+    (by rw [a1, a2, a3, a4]; norm_num)
+  rw [a1, a2, a3, a4] at h
+  norm_num at h ⊢
+  exact ⟨h.2.2.1, h.2.2.2⟩
+
+/-- **the floor on `E` in `segment_length_err_float32` is necessary**: the segment from `(0, 0)` to `(2⁻⁷⁵, 0)` has the exact
+squared length `2⁻¹⁵⁰ > 0`, but `x·x` underflows in `f32` (a tie with the smallest subnormal, rounded to even) and the code
+books the length `+0`: the relative bound fails, only an absolute one (`≤ 2⁻⁷⁵`) survives. -/
+theorem segment_length_underflow_example :
+    (Pos.length Float ((⟨Float32.ofBits 0x1A000000, 0⟩ : Pos Float32) - (⟨0, 0⟩ : Pos Float32))).toBits = 0 ∧
+    toRat32 (Float32.ofBits 0x1A000000) = (2 : ℚ) ^ (-75 : Int) ∧
+    ¬ (((2 : ℚ) ^ (-75 : Int)) ^ 2 * (1 - 3 * (2 : ℚ) ^ (-22 : Int)) ≤ (0 : ℚ) ^ 2) := by
+  refine ⟨by decide +kernel, ?_, by norm_num⟩
+  rw [toRat32_bits (s := .positive) (m := 8388608) (e := -98) (hm := by decide) (by decide) rfl]; norm_num [sgnQ]
+
+theorem demo_segLens32 : segLens32 [demoPP, demoPE, demoPP] = [Float32.ofBits 0x41C80000, Float32.ofBits 0x41C80000] := by
+  decide +kernel
+
+/-- **`natural_length_err_float` on the closed path `(100,200) → (107,224) → (100,200)`**: the hypotheses are checked by the
+kernel; `Σ ℓᵢ = 50`, and the booked total is within `4·2⁻⁵³·50` of it (it is exactly `50`). -/
+example : |toRat (cumLens (0 : Float) [demoPP, demoPE, demoPP]).2 - 50| ≤ 4 * (2 : ℚ) ^ (-53 : Int) * 50 := by
+  have h := natural_length_err_float_linear [demoPP, demoPE, demoPP] 0 (by decide +kernel)
+    (by
+      rw [demo_segLens32]
+      intro ℓ hℓ
+      simp only [List.mem_cons, List.not_mem_nil, or_false, or_self] at hℓ
+      subst hℓ; decide +kernel)
+    (by rw [toRat_zero]) (by norm_num)
+  rw [demo_segLens32, toRat_zero] at h
+  simp only [sumQ, List.map_cons, List.map_nil, List.sum_cons, List.sum_nil, demo_25] at h
+  norm_num at h ⊢
+  exact h
+
+/-- the total of that path, evaluated: `50`. -/
+example : (cumLens (0 : Float) [demoPP, demoPE, demoPP]).2 = 50 := by decide +kernel
+
 end Examples
 
 end Rosu.C19
